@@ -106,7 +106,7 @@ type SiteRule struct {
 	Line  int
 }
 
-var clauseHead = regexp.MustCompile(`^(requires|ensures|invariant|decreases|panics_only_if|assert)\b\s*(.*)$`)
+var clauseHead = regexp.MustCompile(`^(requires|ensures|invariant|loopexit|decreases|panics_only_if|assert)\b\s*(.*)$`)
 var propsRe = regexp.MustCompile(`^\[([A-Za-z0-9 ,_=]+)\]\s*`)
 
 func parseContractFile(path, pkg string) (*ContractFile, error) {
@@ -309,8 +309,8 @@ func parseContractFile(path, pkg string) (*ContractFile, error) {
 			}
 			kind, rest := m[1], m[2]
 			cl := &Clause{Kind: kind, Line: l.no}
-			if kind == "invariant" {
-				// invariant "loop key" name: expr
+			if kind == "invariant" || kind == "loopexit" {
+				// invariant "loop key" name: expr   /   loopexit "loop key" name: expr
 				rest = strings.TrimSpace(rest)
 				if !strings.HasPrefix(rest, "\"") {
 					return nil, fail("invariant needs a quoted loop key")
@@ -350,7 +350,7 @@ func parseContractFile(path, pkg string) (*ContractFile, error) {
 					cl.Name = fmt.Sprintf("e%d", len(cur.Ensures)+1)
 				}
 				cur.Ensures = append(cur.Ensures, cl)
-			case "invariant":
+			case "invariant", "loopexit":
 				if cl.Name == "" {
 					cl.Name = fmt.Sprintf("i%d", len(cur.Invs)+1)
 				}
